@@ -94,4 +94,23 @@ PROPS = {
         "thorough": {"runs": [{"test": "^TestC05Matrix$", "shards": 16, "timeout": 1200},
                               {"test": "^TestC05$", "shards": 16, "checks": 6000, "timeout": 3400}]},
     },
+    "C06": {
+        "title": "No privilege amplification; protected users cannot be kicked",
+        "level": "exploration",
+        "rule": "TestC06Create: rapid-generated (creator bitmap, requested bitmap, creation path new-user|update-user) with modes random / "
+                "subset / subset+one-extra-bit / equal / empty / full / defined+undefined-bit; TestC06ExtraBit: every extra-bit position "
+                "0..63 x 3 creator backgrounds x both paths (enumerated); TestC06Kick: 1-4 targets with generated privileges (bit 23 or "
+                "not), ban option none/temporary/permanent, checked 5 fake seconds later (connection, in-memory ban list, Banlist.yaml, "
+                "fresh BanFile, reconnect from the address); oracle: created account bitmap (memory via admin get-user, file, fresh "
+                "manager, 354 at its login) is a subset of the creator's over all 64 bits, and requested-subset => created exactly; "
+                "non-trivial = requested not a subset of creator (create) / a protected target hit with a ban option (kick); "
+                "distinct = hash(creator, requested, path) / hash(targets)",
+        "assumptions": ["creator bitmaps are what an account file can hold (40 defined privileges)"],
+        "quick": {"runs": [{"test": "^TestC06Create$", "shards": 8, "checks": 400, "timeout": 600},
+                           {"test": "^TestC06ExtraBit$", "shards": 4, "timeout": 600},
+                           {"test": "^TestC06Kick$", "shards": 4, "checks": 100, "timeout": 600}]},
+        "thorough": {"runs": [{"test": "^TestC06Create$", "shards": 10, "checks": 20000, "timeout": 3400},
+                              {"test": "^TestC06ExtraBit$", "shards": 2, "timeout": 1200},
+                              {"test": "^TestC06Kick$", "shards": 4, "checks": 5000, "timeout": 3400}]},
+    },
 }
